@@ -59,6 +59,22 @@ Proof.
   - cbn [fst snd]. split; [reflexivity|]. split; [congruence|]. intros H. congruence.
 Qed.
 
+Lemma arrive_dead s : alive s = false -> arrive s = s.
+Proof. intros H. unfold arrive. rewrite H. reflexivity. Qed.
+Lemma arrive_alive s : alive (arrive s) = alive s.
+Proof. unfold arrive. destruct (alive s) eqn:A; [reflexivity|exact A]. Qed.
+Lemma arrive_ph s : ph (arrive s) = ph s.
+Proof. unfold arrive. destruct (alive s); reflexivity. Qed.
+Lemma arrive_since s : alive s = true -> since (arrive s) = 0.
+Proof. intros A. unfold arrive. rewrite A. reflexivity. Qed.
+
+Lemma arrive_simL s s' : simL s s' -> simL (arrive s) (arrive s').
+Proof.
+  intros [A L]. split; [rewrite !arrive_alive; exact A|]. rewrite arrive_alive. intros H.
+  destruct (L H) as [P _]. rewrite !arrive_ph. split; [exact P|].
+  intros _. rewrite !arrive_since by congruence. reflexivity.
+Qed.
+
 Lemma step_seg_simL t8 cap s s' seg :
   simL s s' ->
   snd (step_seg t8 cap s seg) = snd (step_seg t8 cap s' seg) /\
@@ -67,8 +83,8 @@ Proof.
   intros S. unfold step_seg.
   destruct (wait_simL t8 s s' (fst seg) S) as [E1 S1].
   destruct (wait t8 s (fst seg)) as [s1 e1], (wait t8 s' (fst seg)) as [s1' e1']. cbn [fst snd] in *.
-  destruct (feed_simL cap (snd seg) s1 s1' S1) as [E2 S2].
-  destruct (feed cap s1 (snd seg)) as [s2 e2], (feed cap s1' (snd seg)) as [s2' e2']. cbn [fst snd] in *.
+  destruct (feed_simL cap (snd seg) (arrive s1) (arrive s1') (arrive_simL _ _ S1)) as [E2 S2].
+  destruct (feed cap (arrive s1) (snd seg)) as [s2 e2], (feed cap (arrive s1') (snd seg)) as [s2' e2']. cbn [fst snd] in *.
   split; [congruence|exact S2].
 Qed.
 
@@ -128,8 +144,8 @@ Proof. intros H. unfold wait. rewrite H. reflexivity. Qed.
 Lemma run_segs_dead t8 cap : forall segs s, alive s = false -> run_segs t8 cap s segs = (s, []).
 Proof.
   induction segs as [|seg segs IH]; intros s H; cbn [run_segs]; [reflexivity|].
-  unfold step_seg. rewrite wait_dead by exact H. rewrite feed_dead by exact H.
-  rewrite IH by exact H. reflexivity.
+  unfold step_seg. rewrite wait_dead by exact H. rewrite arrive_dead by exact H.
+  rewrite feed_dead by exact H. rewrite IH by exact H. reflexivity.
 Qed.
 Lemma finish_dead t8 s f : alive s = false -> finish t8 s f = [].
 Proof. intros H. unfold finish. rewrite H. reflexivity. Qed.
@@ -205,15 +221,16 @@ Proof.
     rewrite feed_app.
     pose proof (wait_quiet t8 s g) as W.
     destruct (wait t8 s g) as [s1 e1]. cbn [fst snd] in *.
-    pose proof (feed_no_t8 cap bs s1) as F.
-    destruct (feed cap s1 bs) as [s2 e2] eqn:E2. cbn [fst snd] in *.
+    pose proof (feed_no_t8 cap bs (arrive s1)) as F.
+    destruct (feed cap (arrive s1) bs) as [s2 e2] eqn:E2. cbn [fst snd] in *.
     destruct (run_segs t8 cap s2 segs) as [s3 e3] eqn:E3. cbn [fst snd] in *.
     rewrite !has_t8_app in Q. apply orb_false_iff in Q. destruct Q as [Q1 Q3].
     apply orb_false_iff in Q1. destruct Q1 as [Q1 Q2].
     destruct (W Q1) as (-> & A1 & P1).
-    assert (S1 : same_pos s1 s0).
-    { destruct S as [A P]. split; [congruence|]. intros H. rewrite P1. apply P. congruence. }
-    destruct (feed_pos cap bs s1 s0 S1) as [Ef Sf]. rewrite E2 in Ef, Sf. cbn [fst snd] in *.
+    assert (S1 : same_pos (arrive s1) s0).
+    { destruct S as [A P]. split; [rewrite arrive_alive; congruence|]. rewrite arrive_alive, arrive_ph.
+      intros H. rewrite P1. apply P. congruence. }
+    destruct (feed_pos cap bs (arrive s1) s0 S1) as [Ef Sf]. rewrite E2 in Ef, Sf. cbn [fst snd] in *.
     destruct (feed cap s0 bs) as [s2' e2'] eqn:E2'. cbn [fst snd] in *.
     specialize (IH s2 s2' Sf). rewrite E3 in IH. cbn [fst snd] in IH. destruct (IH Q3) as [Er Sr].
     destruct (feed cap s2' (stream_of_segs segs)) as [s3' e3']. cbn [fst snd] in *.
@@ -260,13 +277,23 @@ Proof.
     destruct (feed cap s1 (b' :: bs')) as [s2 e2]. cbn [fst] in *. apply IH. exact A.
 Qed.
 
+Lemma feed_since0 cap bs s :
+  (alive s = true -> since s = 0) -> alive (fst (feed cap s bs)) = true -> since (fst (feed cap s bs)) = 0.
+Proof.
+  intros I A. destruct bs as [|b bs].
+  - cbn [feed fst] in *. apply I. exact A.
+  - apply feed_since; [discriminate|exact A].
+Qed.
+
+(** every Read return (even an empty one) re-arms the deadline, so gaps of at most T8 between
+    consecutive Read returns can never produce a T8 drop *)
 Lemma small_gaps_quiet t8 cap : forall segs s,
   (alive s = true -> started s = true -> since s = 0) ->
-  Forall (fun seg => fst seg <= t8 /\ snd seg <> []) segs ->
+  Forall (fun seg => fst seg <= t8) segs ->
   has_t8_drop (snd (run_segs t8 cap s segs)) = false.
 Proof.
   induction segs as [|[g bs] segs IH]; intros s I F; [reflexivity|].
-  inversion F as [|? ? [G N] F']; subst. cbn [fst snd] in *.
+  inversion F as [|? ? G F']; subst. cbn [fst snd] in *.
   cbn [run_segs]. unfold step_seg. cbn [fst snd].
   assert (W : snd (wait t8 s g) = [] /\ alive (fst (wait t8 s g)) = alive s).
   { unfold wait. destruct (alive s) eqn:A; cbn [negb]; [|split; [reflexivity|exact A]].
@@ -274,15 +301,18 @@ Proof.
     - rewrite (I eq_refl eq_refl). replace (0 + g >? t8) with false by lia. split; reflexivity.
     - split; reflexivity. }
   destruct (wait t8 s g) as [s1 e1]. cbn [fst snd] in W. destruct W as [-> A1].
-  pose proof (feed_no_t8 cap bs s1) as Fq. pose proof (feed_since cap bs s1 N) as Fs.
-  destruct (feed cap s1 bs) as [s2 e2]. cbn [fst snd] in *.
+  pose proof (feed_no_t8 cap bs (arrive s1)) as Fq.
+  assert (I1 : alive (arrive s1) = true -> since (arrive s1) = 0).
+  { rewrite arrive_alive. apply arrive_since. }
+  pose proof (feed_since0 cap bs (arrive s1) I1) as Fs.
+  destruct (feed cap (arrive s1) bs) as [s2 e2]. cbn [fst snd] in *.
   specialize (IH s2 (fun A _ => Fs A) F').
   destruct (run_segs t8 cap s2 segs) as [s3 e3]. cbn [fst snd] in *.
   cbn [app]. rewrite has_t8_app, Fq, IH. reflexivity.
 Qed.
 
 Lemma small_gaps_quiet_init t8 cap segs :
-  Forall (fun seg => fst seg <= t8 /\ snd seg <> []) segs ->
+  Forall (fun seg => fst seg <= t8) segs ->
   has_t8_drop (snd (run_segs t8 cap rinit segs)) = false.
 Proof. apply small_gaps_quiet. intros _ H. discriminate H. Qed.
 
@@ -303,11 +333,29 @@ Proof.
   cbn [run_segs]. unfold step_seg. cbn [fst snd]. rewrite !idle_wait by assumption.
   assert (S1 : simL (mkR true (ph s) (since s + g)) (mkR true (ph s) (since s + g'))).
   { split; [reflexivity|]. intros _. split; [reflexivity|]. unfold started in *. cbn [ph]. rewrite St. discriminate. }
-  destruct (feed_simL cap bs _ _ S1) as [E2 S2].
-  destruct (feed cap (mkR true (ph s) (since s + g)) bs) as [s2 e2].
-  destruct (feed cap (mkR true (ph s) (since s + g')) bs) as [s2' e2']. cbn [fst snd] in *.
+  destruct (feed_simL cap bs _ _ (arrive_simL _ _ S1)) as [E2 S2].
+  destruct (feed cap (arrive (mkR true (ph s) (since s + g))) bs) as [s2 e2].
+  destruct (feed cap (arrive (mkR true (ph s) (since s + g'))) bs) as [s2' e2']. cbn [fst snd] in *.
   destruct (run_segs_simL t8 cap rest s2 s2' S2) as [E3 S3].
   destruct (run_segs t8 cap s2 rest) as [s3 e3], (run_segs t8 cap s2' rest) as [s3' e3']. cbn [fst snd] in *.
+  rewrite (finish_simL t8 s3 s3' f S3). congruence.
+Qed.
+
+(** a Read that returns no byte while the link is idle is a no-op: it does not start a frame, so
+    whatever follows — in particular an idle gap of any length — behaves as if it had not happened *)
+Lemma empty_read_idle t8 cap pre g rest f :
+  let s := fst (run_segs t8 cap rinit pre) in
+  alive s = true -> started s = false ->
+  run t8 cap (pre ++ (g, []) :: rest) f = run t8 cap (pre ++ rest) f.
+Proof.
+  cbn zeta. intros A St. unfold run. rewrite !run_segs_app.
+  destruct (run_segs t8 cap rinit pre) as [s e0]. cbn [fst] in *.
+  cbn [run_segs]. unfold step_seg. cbn [fst snd]. rewrite idle_wait by assumption.
+  unfold arrive. cbn [alive ph feed app].
+  assert (S1 : simL (mkR true (ph s) 0) s).
+  { split; [cbn; congruence|]. intros _. split; [reflexivity|]. unfold started in *. cbn [ph]. rewrite St. discriminate. }
+  destruct (run_segs_simL t8 cap rest _ _ S1) as [E3 S3].
+  destruct (run_segs t8 cap (mkR true (ph s) 0) rest) as [s3 e3], (run_segs t8 cap s rest) as [s3' e3']. cbn [fst snd] in *.
   rewrite (finish_simL t8 s3 s3' f S3). congruence.
 Qed.
 
@@ -322,7 +370,7 @@ Proof.
   destruct (run_segs t8 cap rinit pre) as [s e0]. cbn [fst snd] in *.
   cbn [run_segs]. unfold step_seg. cbn [fst snd]. unfold wait. rewrite A, St. cbn [negb andb].
   replace (since s + g >? t8) with true by lia.
-  rewrite feed_dead by reflexivity. rewrite run_segs_dead by reflexivity.
+  rewrite arrive_dead by reflexivity. rewrite feed_dead by reflexivity. rewrite run_segs_dead by reflexivity.
   rewrite finish_dead by reflexivity. rewrite !app_nil_r. reflexivity.
 Qed.
 
@@ -366,7 +414,7 @@ Proof.
   induction segs as [|seg segs IH]; intros s; cbn [run_segs]; [constructor|].
   unfold step_seg.
   pose proof (wait_alloc_ok cap t8 s (fst seg)) as H1. destruct (wait t8 s (fst seg)) as [s1 e1].
-  pose proof (feed_alloc_ok cap (snd seg) s1) as H2. destruct (feed cap s1 (snd seg)) as [s2 e2].
+  pose proof (feed_alloc_ok cap (snd seg) (arrive s1)) as H2. destruct (feed cap (arrive s1) (snd seg)) as [s2 e2].
   specialize (IH s2). destruct (run_segs t8 cap s2 segs) as [s3 e3]. cbn [snd] in *.
   repeat (apply Forall_app; split); assumption.
 Qed.
